@@ -1059,6 +1059,34 @@ fn skipcheck(thorough: bool) {
             }
         }
     }
+    // hostile heads, judged by the reference parser
+    for h in refmodel::enumerate::hostile_heads() {
+        let mut d = Decoder::new(&h);
+        let r = d.skip();
+        evals += 1;
+        match parse(&h) {
+            Ok((item, _)) if !item.utf8_ok() => {}
+            Ok((item, used)) => match r {
+                Ok(()) if d.position() == used => ok_pos += 1,
+                Err(e) if !alloc && e.is_message() && item.has_indef_in_def() => refused += 1,
+                other => {
+                    violations += 1;
+                    if violations <= 20 {
+                        println!("SKIP-VIOLATION item={} input_hex={} result={:?} position={} item_len={}", item.diag(), hex(&h), other.map_err(|e| e.to_string()), d.position(), used);
+                    }
+                }
+            },
+            Err(ParseErr::EndOfInput) => {
+                if r.is_ok() {
+                    violations += 1;
+                    if violations <= 20 {
+                        println!("SKIP-VIOLATION input_hex={} result=Ok (position {}) although the input ends inside the item", hex(&h), d.position());
+                    }
+                }
+            }
+            Err(ParseErr::IllFormed) => {}
+        }
+    }
     println!("SKIP-SUMMARY config={} trees={} evaluations={} exact_position={} refused_as_documented={} violations={}", config_name(), trees.len(), evals, ok_pos, refused, violations);
 }
 
